@@ -7,6 +7,8 @@ import random
 from corpus.defs import c, s, cat, alt, star, plus, opt, cset, rng, ANY, EOF, diff, R, flat, multi
 
 ALPHA = "abc"
+# every generic check sweeps every random definition; a failure counts for the properties named in the failed assertion
+ALL = ["C01", "C02", "C03", "C04", "C05", "C06", "C07", "C08", "C09", "C10"]
 
 
 def nullable(r):
@@ -98,13 +100,13 @@ def make(seed, count):
         name = "rnd_%d_%d" % (seed, i)
         if shape < 0.6:
             rules = [rule(rnd, ["tok"]) for _ in range(rnd.randint(2, 4))]
-            out.append(flat(name, rules, ["C01", "C02", "C04", "C05", "C07", "C08", "C09"], N=6, m=1))
+            out.append(flat(name, rules, ALL, N=6, m=1))
         elif shape < 0.8:
             kinds = ["return", "return", "skip", "continue", "reset_continue", "reset_return", "ok", "err"]
             rules = [rule(rnd, kinds) for _ in range(rnd.randint(2, 4))]
             if not any(r["kind"] in ("return", "ok") for r in rules):
                 rules.append(R(c(rnd.choice(ALPHA)), "return"))
-            out.append(flat(name, rules, ["C10", "C06", "C07", "C01"], N=6, m=4))
+            out.append(flat(name, rules, ALL, N=6, m=4))
         else:
             kinds = ["return", "return", "switch", "switch_return", "skip", "err", "ok"]
             names = ["Init", "B"] + (["C"] if rnd.random() < 0.35 else [])
@@ -117,5 +119,5 @@ def make(seed, count):
                 if sn == "Init" and not any(r["kind"] in ("switch", "switch_return") for r in rules):
                     rules.append(R(c("c"), "switch_return", to=rnd.choice(others)))
                 sets.append((sn, rules))
-            out.append(multi(name, sets, ["C03", "C08", "C05", "C01", "C07"], N=6, m=4))
+            out.append(multi(name, sets, ALL, N=6, m=4))
     return out
